@@ -30,13 +30,61 @@ def _bound_to_element(fi, name: str) -> bool:
     return False
 
 
+def sibling_cast(r: R, chk, q: str, data_param: str, rule="SIBLING-CAST"):
+    """no element of the user's data is converted to the class of ANOTHER element (`type(data[0])(x)`, `map(type(data[0]), data)`):
+    when that class is int the conversion truncates every non-integral element"""
+    ctx = r.root(q)
+    fi = ctx.fi
+    if data_param not in fi.params:
+        return
+    pi = fi.params.index(data_param)
+    dyn = set()
+    for a in ast.walk(fi.node):
+        if isinstance(a, ast.Assign) and len(a.targets) == 1 and isinstance(a.targets[0], ast.Name) and isinstance(a.value, ast.Call) and isinstance(a.value.func, ast.Name) and a.value.func.id == "type" and a.value.args:
+            v = ctx.val(a.value.args[0])
+            if v is not None and R.dep_has(v.all_dep(), ("P", pi)):
+                dyn.add(a.targets[0].id)
+
+    def is_dyn(e):
+        if isinstance(e, ast.Name):
+            return e.id in dyn
+        if isinstance(e, ast.Call) and isinstance(e.func, ast.Name) and e.func.id == "type" and e.args:
+            v = ctx.val(e.args[0])
+            return v is not None and R.dep_has(v.all_dep(), ("P", pi))
+        return False
+
+    n = 0
+    for c in ast.walk(fi.node):
+        if not isinstance(c, ast.Call):
+            continue
+        victims = []
+        if is_dyn(c.func):
+            victims = list(c.args)
+        elif isinstance(c.func, ast.Name) and c.func.id == "map" and len(c.args) >= 2 and is_dyn(c.args[0]):
+            victims = list(c.args[1:])
+        else:
+            continue
+        n += 1
+        bad = []
+        for a in victims:
+            if isinstance(a, ast.Constant):
+                continue
+            v = ctx.val(a)
+            if v is not None and R.dep_has(v.all_dep(), ("P", pi)):
+                bad.append(a)
+        chk.ob(rule, f"{q}: `{seg(c, 40)}` converts no element of `{data_param}`", not bad, loc=r.loc(ctx, c),
+               detail="" if not bad else f"{q}: `{seg(c, 50)}` converts `{seg(bad[0], 30)}` (the caller's {data_param}) to the class of another element of {data_param}: if that one is an int every non-integral value is truncated (int(0.5) == 0), so the knot spacing is not the requested one and interior knots can coincide",
+               func=q, construct=f"{data_param} converted to the class of one of its elements")
+    chk.note(f"{rule}: {n} conversion(s) by a class taken from `{data_param}` examined in {q} (expected count of violations: zero; the thorough tier keeps a variant that must match)")
+
+
 def run(m, chk):
     r = R(m, chk)
     chk.explanation = (
         "Static discharge of structural clauses of C18: normalize does not obtain the upper limit as x * (1/x) (rule R: IEEE arithmetic does not round that to 1 for every x, x / x does); shift / scale / normalize commit once, "
         "last (through the validated setter); generator results depend on degree, npts and cls / weights. Spacing, simplicity of interior knots and invariance of evaluation under reparametrisation are not decided."
     )
-    chk.decides = ["R (no multiplication by a reciprocal of an own element)", "COMMIT-LAST(shift, scale)", "DEP-MAY of the generators", 'NORMALIZE-PATHS']
+    chk.decides = ["R (no multiplication by a reciprocal of an own element)", "COMMIT-LAST(shift, scale)", "DEP-MAY of the generators", 'NORMALIZE-PATHS', 'SIBLING-CAST (weight() converts no weight to the class of another weight)']
     chk.not_decided = ["equal spacing / simple interior knots", "N_i over s*U+a at s*u+a equals N_i over U at u"]
     q = KV + "normalize"
     ctx = r.root(q)
@@ -72,6 +120,7 @@ def run(m, chk):
             chk.ob("DEP-MAY", f"{gq}: the vector depends on {', '.join(need)}", not miss, loc=r.loc(c2, c2.cfg.nodes[nid].ast), detail="" if not miss else f"{gq}: the generated vector does not depend on {r.fmt_deps(c2.fi, miss)}", func=gq, construct=f"ignores {r.fmt_deps(c2.fi, miss)}")
         okt = c2.summary.ret is not None and "inst:KnotVector" in c2.summary.ret.ty
         chk.ob("DEP-MAY", f"{gq}: returns a KnotVector built by the validating constructor", okt, loc=r.loc(c2, c2.fi.node), detail="" if okt else f"{gq}: may return {sorted(c2.summary.ret.ty) if c2.summary.ret else '?'}", func=gq, construct="generator result type")
+    sibling_cast(r, chk, G + "weight", "weights")
     for name in ("uniform", "random"):
         c2 = r.root(G + name)
         ok = any(f.qual == KV + "normalize" for c in c2.calls for f in c.callees)
